@@ -37,6 +37,9 @@ def plan(tier, seed):
 		tasks.append(('t_persisted', dict(start=start, depth=3 if tier == 'quick' else 4)))
 	for si in range(len(DEEP_SHAPES)):
 		tasks.append(('t_consensus_deep', dict(si=si, maxm=4 if tier == 'quick' else 5)))
+	for L in ((34, 40, 70) if tier == 'quick' else (33, 34, 35, 40, 64, 65, 70, 130, 300)):
+		for b in sorted({1, max(1, L - 34), L // 2}):
+			tasks.append(('t_very_deep', dict(L=L, b=b)))
 	if tier == 'quick':
 		cfgs = [(1, 3, 'full'), (2, 3, 'full'), (3, 3, 'full'), (4, 2, 'full'), (4, 3, 'coarse')]
 	else:
@@ -169,6 +172,37 @@ def t_consensus_deep(si, maxm):
 	return sh
 
 
+def t_very_deep(L, b):
+	"""Y-shaped taxonomies with 33..300 levels: a chain 0..L-1 and a second arm of 35 taxa branching off below taxon b.  consensus_taxon for every
+	ordered pair / triple from a boundary set of taxa (root, around the fork, 31..34 levels above each tip, tips); strict classification with the
+	only thresholds at one or two of those taxa and genomes on both tips."""
+	sh = Shard()
+	A = 35
+	parent = tuple([None] + list(range(L - 1)) + [b] + list(range(L, L + A - 1)))
+	n = len(parent)
+	tip1, tip2 = L - 1, n - 1
+	taxa = taxo.build_taxa(parent)
+	bset = sorted({0, 1, b - 1, b, b + 1, L // 2, L - 2, tip1, L, L + 1, tip2 - 1, tip2} | {x for x in range(L - 36, L - 29) if x >= 0} | {n - 34, n - 33, n - 32})
+	bset = [x for x in bset if 0 <= x < n]
+	for m in (1, 2, 3):
+		for order in itertools.permutations(bset, m):
+			check_consensus(sh, parent, taxa, order)
+	for j1 in bset:
+		for j2 in bset:
+			thr = [None] * n
+			thr[j1] = 0.5
+			if j2 != j1:
+				thr[j2] = 0.25
+			taxo.set_attrs(taxa, thr=thr)
+			for placement in ((tip1, tip2), (tip2, tip1), (tip1, L // 2), (tip1, tip2, b)):
+				genomes = taxo.make_genomes(taxa, placement)
+				for dists in itertools.product([0.0, 0.25, 0.5, 0.75], repeat=len(placement)):
+					check_classify(sh, parent, tuple(thr), taxa, placement, dists, genomes)
+	sh.count('very_deep_cases', sh.evals)
+	sh.sample(dict(family='very_deep', L=L, fork=b, taxa=n, boundary_set=bset))
+	return sh
+
+
 def check_classify(sh, parent, thr, taxa, placement, dists, genomes=None):
 	from gambit.classify import classify
 	if genomes is None:
@@ -251,7 +285,7 @@ def t_classify(n, gmax, dmode, shard, nshards):
 
 
 def finalize(agg, tier):
-	for c in ('conflict', 'no_common_ancestor', 'consensus_not_a_member', 'classify_conflict', 'classify_no_common_ancestor', 'primary_not_closest', 'deep_shape_cases', 'persisted_steps'):
+	for c in ('conflict', 'no_common_ancestor', 'consensus_not_a_member', 'classify_conflict', 'classify_no_common_ancestor', 'primary_not_closest', 'deep_shape_cases', 'persisted_steps', 'very_deep_cases'):
 		agg.require(c, 50)
 
 
